@@ -228,3 +228,132 @@ Proof.
     split; [zconsts; lia|].
     intro x. pose proof (O x) as Ox. pose proof (O2 x) as O2x. pose proof (lday_order z x Y) as [_ LO]. lia.
 Qed.
+
+(* ------------------------------------------------------------------ (3) relative week start (repaired, AddDate-based) *)
+(* GetRelativeStartOfWeek first steps back a week when now's weekday (Sunday = 7) is before the requested one *)
+Definition steps_back (X w : Z) : bool :=
+  (if weekday_of_days X =? 0 then 7 else weekday_of_days X) <? (if w =? 0 then 7 else w).
+Definition rel_week_base (X w : Z) : Z := if steps_back X w then X - 7 else X.
+
+Lemma unix_reads : forall z a b, unix a = unix b -> z_lday z a = z_lday z b /\ z_sod z a = z_sod z b /\ zoff z a = zoff z b.
+Proof. intros z a b E. unfold z_lday, z_sod, zoff, lday, sod, lsec. rewrite E. repeat split; reflexivity. Qed.
+
+Lemma wall_inst_plus : forall z X c n, 0 <= n < NS ->
+  unix (z_wall_inst z X c + n) = unix (z_wall_inst z X c) /\ nsec (z_wall_inst z X c + n) = n.
+Proof.
+  intros z X c n Hn. unfold z_wall_inst. set (u := resolve z (X * DAY_S + c)).
+  destruct (inst_unix u n Hn) as [U1 N1]. destruct (inst_unix u 0 ltac:(zconsts; lia)) as [U2 _].
+  rewrite Z.add_0_r in U2. rewrite U1, U2, N1. split; reflexivity.
+Qed.
+
+Lemma rel_week_base_day : forall X w, 0 <= w <= 6 -> week_day (rel_week_base X w) w = latest_weekday X w.
+Proof.
+  intros X w Hw. pose proof (relative_week_day X w Hw) as R. cbv zeta in R.
+  unfold rel_week_base, steps_back. unfold week_day. rewrite <- week_delta_spec by exact Hw. exact R.
+Qed.
+
+Lemma z_relative_start_of_week_cf : forall B D z t w k, zone_ok B D z -> 2 * B <= D -> 0 <= w <= 6 ->
+  (steps_back (z_lday z t) w = true -> wall_regular z ((z_lday z t - 7) * DAY_S + z_sod z t) = true) ->
+  midnight_regular z (rel_week_base (z_lday z t) w) = true ->
+  midnight_regular z (latest_weekday (z_lday z t) w) = true ->
+  z_get_relative_start_of_week z t w k = z_midnight z (latest_weekday (z_lday z t) w + 7 * k).
+Proof.
+  intros B D z t w k HZ HD Hw H1 H2 H3. unfold z_get_relative_start_of_week.
+  rewrite z_weekday_lday. fold (steps_back (z_lday z t) w).
+  set (X := z_lday z t) in *. pose proof (rel_week_base_day X w Hw) as RB.
+  assert (M : z_get_start_of_week z (if steps_back X w then z_add_date z t 0 0 (-7) else t) w
+              = z_midnight z (latest_weekday X w)).
+  { unfold rel_week_base in *. destruct (steps_back X w) eqn:SB.
+    - rewrite z_add_days_cf. fold X. replace (X + -7) with (X - 7) by lia.
+      pose proof (z_wall_split z t) as [_ St]. pose proof (t_split t) as [_ Nt].
+      destruct (wall_inst_reads B D z (X - 7) (z_sod z t) HZ HD St (H1 eq_refl)) as (L & _).
+      destruct (wall_inst_plus z (X - 7) (z_sod z t) (nsec t) Nt) as [U _].
+      destruct (unix_reads z _ _ U) as (L' & _). rewrite L in L'.
+      rewrite (z_start_of_week_cf B D z _ w HZ HD Hw) by (rewrite L'; exact H2).
+      rewrite L', RB. reflexivity.
+    - rewrite (z_start_of_week_cf B D z t w HZ HD Hw) by exact H2. fold X. rewrite RB. reflexivity. }
+  rewrite M, z_add_days_cf.
+  destruct (midnight_reads B D z _ HZ HD H3) as (L & S & N & _).
+  rewrite L, S, N, Z.add_0_r, z_midnight_wall_inst. reflexivity.
+Qed.
+
+Lemma z_relative_time_of_week_cf : forall z t w k,
+  z_get_relative_time_of_week z t w k =
+  z_wall_inst z (z_lday z (z_get_relative_start_of_week z t w k)) (z_sod z t) + nsec t.
+Proof.
+  intros. unfold z_get_relative_time_of_week. set (r := z_get_relative_start_of_week z t w k).
+  unfold z_wall_inst, z_date_of, z_clock_of, z_lday, z_sod.
+  destruct (date_of (zoff z r) r) as [[y m] d] eqn:E. apply date_of_spec in E. destruct E as [[Hm _] Hn].
+  destruct (clock_of (zoff z t) t) as [[h mi] s] eqn:C. apply clock_of_spec in C. destruct C as [C _].
+  pose proof (t_split t) as [_ Hns]. rewrite go_date_z_valid by lia. rewrite Hn, C. reflexivity.
+Qed.
+
+Lemma clock_zero_sod : forall z x, z_clock_of z x = (0, 0, 0) -> z_sod z x = 0.
+Proof. intros z x C. unfold z_clock_of in C. apply clock_of_spec in C. unfold z_sod. lia. Qed.
+
+Theorem dst_relative_week_start : forall B D z t w k, zone_ok B D z -> 2 * B <= D -> 0 <= w <= 6 ->
+  (steps_back (z_lday z t) w = true -> wall_regular z ((z_lday z t - 7) * DAY_S + z_sod z t) = true) ->
+  midnight_regular z (rel_week_base (z_lday z t) w) = true ->
+  midnight_regular z (latest_weekday (z_lday z t) w) = true ->
+  midnight_regular z (latest_weekday (z_lday z t) w + 7 * k) = true ->
+  let r := z_get_relative_start_of_week z t w k in
+  let r0 := z_get_relative_start_of_week z t w 0 in
+  z_lday z r0 = latest_weekday (z_lday z t) w /\
+  z_weekday_of z r0 = w /\ z_clock_of z r0 = (0, 0, 0) /\ nsec r0 = 0 /\
+  z_lday z r0 <= z_lday z t < z_lday z r0 + 7 /\ r0 <= t /\ t - r0 < WEEK + 2 * B * NS /\
+  (forall x, r0 <= x <-> latest_weekday (z_lday z t) w <= z_lday z x) /\
+  (midnight_regular z (z_lday z t + 1) = true ->
+     forall x, z_weekday_of z x = w -> z_clock_of z x = (0, 0, 0) -> nsec x = 0 -> x <= t -> x <= r0) /\
+  z_lday z r = z_lday z r0 + 7 * k /\
+  z_weekday_of z r = w /\ z_clock_of z r = (0, 0, 0) /\ nsec r = 0 /\
+  (forall x, r <= x <-> latest_weekday (z_lday z t) w + 7 * k <= z_lday z x) /\
+  r - r0 = (7 * k * DAY_S - (zoff z r - zoff z r0)) * NS /\
+  (wall_regular z ((latest_weekday (z_lday z t) w + 7 * k) * DAY_S + 86399) = true ->
+     let e := z_get_relative_end_of_week z t w k in
+     z_lday z e = z_lday z r /\ z_clock_of z e = (23, 59, 59) /\ nsec e = 0 /\
+     e + SECOND - r = (DAY_S - (zoff z e - zoff z r)) * NS) /\
+  (wall_regular z ((latest_weekday (z_lday z t) w + 7 * k) * DAY_S + z_sod z t) = true ->
+     let rt := z_get_relative_time_of_week z t w k in
+     z_lday z rt = z_lday z r /\ z_clock_of z rt = z_clock_of z t /\ nsec rt = nsec t).
+Proof.
+  intros B D z t w k HZ HD Hw H1 H2 H3 H4 r r0.
+  pose proof (z_relative_start_of_week_cf B D z t w k HZ HD Hw H1 H2 H3) as CF. fold r in CF.
+  pose proof (z_relative_start_of_week_cf B D z t w 0 HZ HD Hw H1 H2 H3) as CF0. fold r0 in CF0.
+  rewrite Z.mul_0_r, Z.add_0_r in CF0.
+  set (X := z_lday z t) in *. pose proof (latest_weekday_spec X w Hw) as [LW LB]. set (D0 := latest_weekday X w) in *.
+  destruct (midnight_reads B D z D0 HZ HD H3) as (L0 & S0 & N0 & O0 & U0). rewrite <- CF0 in L0, S0, N0, O0, U0.
+  destruct (midnight_reads B D z (D0 + 7 * k) HZ HD H4) as (L & S & N & O & _). rewrite <- CF in L, S, N, O.
+  assert (WK : weekday_of_days (D0 + 7 * k) = w) by (unfold weekday_of_days in *; lia).
+  pose proof (inst_diff z t r0) as D1. rewrite L0, S0, N0 in D1. fold X in D1.
+  pose proof (inst_diff z r r0) as D2. rewrite L, S, N, L0, S0, N0 in D2.
+  pose proof (z_wall_split z t) as [_ St]. pose proof (t_split t) as [_ Nt].
+  pose proof (zoff_bound B D z r0 HZ) as Br0. pose proof (zoff_bound B D z t HZ) as Bt.
+  split; [exact L0|]. split; [rewrite z_weekday_lday, L0; exact LW|].
+  split; [rewrite (z_clock_of_sod z r0 0 S0); reflexivity|]. split; [exact N0|].
+  split; [rewrite L0; exact LB|]. split; [apply O0; fold X; lia|]. split; [rewrite D1; zconsts; lia|].
+  split; [exact O0|].
+  split.
+  { intros HN x Wx Cx Nx Hx. apply clock_zero_sod in Cx. rewrite z_weekday_lday in Wx.
+    destruct (midnight_reads B D z (X + 1) HZ HD HN) as (_ & _ & _ & O1 & _).
+    destruct (Z.lt_trichotomy (z_lday z x) D0) as [C|[C|C]].
+    - pose proof (O0 x). lia.
+    - rewrite (U0 x C Cx Nx). lia.
+    - assert (X + 1 <= z_lday z x) by (unfold weekday_of_days in *; lia).
+      pose proof (O1 x) as O1x. pose proof (O1 t) as O1t. fold X in O1t. lia. }
+  split; [rewrite L, L0; reflexivity|]. split; [rewrite z_weekday_lday, L; exact WK|].
+  split; [rewrite (z_clock_of_sod z r 0 S); reflexivity|]. split; [exact N|]. split; [exact O|].
+  split; [rewrite D2; zconsts; lia|].
+  split.
+  - intros HE e. subst e. unfold z_get_relative_end_of_week. fold r. rewrite z_end_of_day_cf, L.
+    destruct (wall_inst_reads B D z (D0 + 7 * k) 86399 HZ HD ltac:(zconsts; lia) HE) as (Le & Se & Ne & _).
+    set (e := z_wall_inst z (D0 + 7 * k) 86399) in *.
+    pose proof (inst_diff z e r) as D3. rewrite L, S, N, Le, Se, Ne in D3.
+    split; [exact Le|]. split; [rewrite (z_clock_of_sod z e 86399 Se); reflexivity|]. split; [exact Ne|].
+    zconsts; lia.
+  - intros HT rt. subst rt. rewrite z_relative_time_of_week_cf. fold r. rewrite L.
+    destruct (wall_inst_reads B D z (D0 + 7 * k) (z_sod z t) HZ HD St HT) as (Lt & S't & _).
+    destruct (wall_inst_plus z (D0 + 7 * k) (z_sod z t) (nsec t) Nt) as [U Nn].
+    destruct (unix_reads z _ _ U) as (L' & S' & _). rewrite Lt in L'. rewrite S't in S'.
+    split; [exact L'|]. split; [|exact Nn].
+    rewrite (z_clock_of_sod z _ _ S'). symmetry. apply z_clock_of_sod. reflexivity.
+Qed.
